@@ -146,7 +146,10 @@ func expectObserve(cl rtMaker, stream []byte, late, keep bool) (out expectObs) {
 		out.Hung = true
 	}
 	out.BodyGot = -1
-	if !out.Hung && keep && out.O.Rej == "" && !out.O.Close {
+	// the body is observed only when the connection is really kept (no close, final status > 199:
+	// readLoop drops the connection after a terminal status <= 199, and the body write then races
+	// with that close)
+	if !out.Hung && keep && out.O.Rej == "" && !out.O.Close && out.O.Code > 199 {
 		select {
 		case out.BodyGot = <-bodyGot:
 		case <-time.After(tcpWatchdog):
